@@ -323,6 +323,14 @@ func (r *Reader) extractParagraph(p *pXML) Paragraph {
 	// Get paragraph properties
 	if p.PPr != nil {
 		para.Level = p.PPr.Lvl
+		// DrawingML has nine bullet levels (0-8); the level is used as an
+		// indentation loop count, so clamp what the file says
+		if para.Level < 0 {
+			para.Level = 0
+		}
+		if para.Level > 8 {
+			para.Level = 8
+		}
 		para.Alignment = p.PPr.Algn
 
 		// Check for bullets
